@@ -266,8 +266,14 @@ func checkLiveness(nw *Network, res *CaseResult, cycles int, idle bool, bound in
 				busy = append(busy, n.Idx)
 			}
 		}
-		nw.violate("C06", "C06:not-idle-within-bound",
-			fmt.Sprintf("after %d fair all-pairs cycles among the live validators, nodes %v are still busy (or a join / fast-forward is still pending)", bound, busy),
+		sig := "C06:not-idle-within-bound"
+		msg := fmt.Sprintf("after %d fair all-pairs cycles among the live validators, nodes %v are still busy (or a join / fast-forward is still pending)", bound, busy)
+		if desc := onlyChildlessEventsOfDeparted(nw, live, pendingJoins); desc != "" {
+			// a specific, recorded way of never becoming idle (see known_findings.json)
+			sig = "C06:busy-forever-on-childless-event-of-departed-validator"
+			msg += "; the only thing keeping them busy: " + desc
+		}
+		nw.violate("C06", sig, msg,
 			map[string]interface{}{"busy": busy, "pending_joins_at_live_hosts": pendingJoins, "diag": progressDiag(nw, nil)})
 		return
 	}
@@ -516,4 +522,62 @@ func firstRoundsOf(nw *Network, a, b *SimNode) []string {
 		out = append(out, fmt.Sprintf("identity %d (%s): first round at node %d = %d/%v, at node %d = %d/%v", x.Idx, x.PubHex[:12], a.Idx, fa, oka, b.Idx, fb, okb))
 	}
 	return out
+}
+
+// onlyChildlessEventsOfDeparted tells whether the one and only reason why the
+// live nodes are still busy is that each of them holds payload-carrying events,
+// still undetermined, that nobody ever built upon (no event anywhere has them
+// as a parent) and whose creator is no longer taking part (it left, suspended
+// itself, is down or silent): such an event can never be received by a round.
+// Returns a description, or "" when anything else keeps a node busy.
+func onlyChildlessEventsOfDeparted(nw *Network, live []*SimNode, pendingJoins int) string {
+	if pendingJoins > 0 {
+		return ""
+	}
+	isLive := map[int]bool{}
+	for _, n := range live {
+		isLive[n.Idx] = true
+	}
+	hasChild := map[string]bool{}
+	for _, o := range nw.Rec.Order {
+		hasChild[o.SelfParent] = true
+		hasChild[o.OtherParent] = true
+	}
+	culprits := map[string]bool{}
+	for _, n := range live {
+		if !n.Core.Busy() {
+			continue
+		}
+		h := n.Core.Hg()
+		_, _, target, _ := n.Core.Rounds()
+		if len(n.Core.TransactionPool()) > 0 || len(n.Core.InternalTransactionPool()) > 0 || len(n.Core.SelfBlockSignatures()) > 0 ||
+			n.Node.GetLastConsensusRoundIndex() < target {
+			return ""
+		}
+		loaded := 0
+		for _, u := range h.UndeterminedEvents {
+			ev, err := h.Store.GetEvent(u)
+			if err != nil || !ev.IsLoaded() {
+				continue
+			}
+			loaded++
+			re := nw.Rec.Events[u]
+			if re == nil || hasChild[u] || (re.CreatorIdx >= 0 && isLive[re.CreatorIdx]) {
+				return ""
+			}
+			culprits[fmt.Sprintf("event %d of departed validator %d (%d transaction(s), first seen at step %d)", re.Index, re.CreatorIdx, len(re.Txs), re.FirstStep)] = true
+		}
+		if loaded == 0 || loaded != h.PendingLoadedEvents {
+			return ""
+		}
+	}
+	if len(culprits) == 0 {
+		return ""
+	}
+	out := []string{}
+	for c := range culprits {
+		out = append(out, c)
+	}
+	sort.Strings(out)
+	return fmt.Sprint(out)
 }
